@@ -778,6 +778,57 @@ pub fn c11_case_all(dir: &Path, progs: &[Vec<Req>], order: &[usize], preset: boo
     Ok(o)
 }
 
+/// Real contention on a KeyDir shard: the shard of key k is locked exclusively (store hook) while a
+/// client's command that needs that shard is on its way; the command has to wait and then answer
+/// correctly - contention is not absence. `which` selects the command.
+pub fn c11_shard_case(dir: &Path, which: usize) -> Result<String, V> {
+    let srv = Srv::start(dir, &SrvCfg { max_connections: 8, max_file_size: 1 << 31, gated: false }).map_err(mach)?;
+    let r = (|| -> Result<String, V> {
+        let k = Bytes::from_static(b"k");
+        // another key that lives in the same shard as k
+        let shard = srv.handle.verif_shard_of(&k);
+        let mate: Vec<u8> = (0..100_000).map(|i| format!("m{}", i).into_bytes()).find(|c| srv.handle.verif_shard_of(&Bytes::from(c.clone())) == shard).ok_or_else(|| mach("no second key in the shard of k"))?;
+        let mut model = Kv::new();
+        for (key, v) in [(b"k".to_vec(), b"0".to_vec()), (mate.clone(), b"7".to_vec())] {
+            srv.handle.set(Bytes::from(key.clone()), Bytes::from(v.clone())).map_err(|e| mach(e.to_string()))?;
+            model.insert(key, v);
+        }
+        let reqs = vec![Req::Get(b"k".to_vec()), Req::Get(mate.clone()), Req::Get(b"absent".to_vec()), Req::Set(b"k".to_vec(), b"2".to_vec()), Req::Set(mate.clone(), b"8".to_vec()), Req::Del(vec![b"k".to_vec()]), Req::Del(vec![mate.clone(), b"k".to_vec()])];
+        let req = reqs[which % reqs.len()].clone();
+        let mut c = srv.connect().map_err(|e| mach(format!("connect: {}", e)))?;
+        let want = enc(&req.apply(&mut model));
+        let mut got: Vec<u8> = vec![];
+        srv.handle.verif_with_shard_locked(&k, || {
+            let _ = c.write_all(&req.encode());
+            // long enough for the command to reach the shard and find it locked
+            std::thread::sleep(Duration::from_millis(12));
+            let (b, _, _) = try_read(&mut c);
+            got.extend_from_slice(&b);
+        });
+        let answered_while_locked = !got.is_empty();
+        let (rest, how) = read_n(&mut c, want.len().saturating_sub(got.len()), T20);
+        got.extend_from_slice(&rest);
+        if got != want {
+            return Err(("wrong-reply-under-shard-contention".into(), format!("{} while the KeyDir shard of 'k' was locked for 12 ms: reply {:?} ({}{}), expected {:?}", req.show(), String::from_utf8_lossy(&got), how, if answered_while_locked { ", answered while the shard was still locked" } else { "" }, String::from_utf8_lossy(&want))));
+        }
+        // and the store agrees with the model afterwards
+        let keys = vec![b"k".to_vec(), mate.clone(), b"absent".to_vec()];
+        let contents = srv.store_contents(&keys);
+        let mut mk = model.clone();
+        mk.retain(|key, _| keys.contains(key));
+        if contents != mk {
+            return Err(("store-differs-from-model".into(), format!("after {} under shard contention: store {:?}, model {:?}", req.show(), contents, mk)));
+        }
+        Ok(format!("shard-held:{}", which % reqs.len()))
+    })();
+    let stopped = srv.stop();
+    let o = r?;
+    if !stopped {
+        return Err(mach("server did not stop"));
+    }
+    Ok(o)
+}
+
 fn frame_lres(f: &RFrame, op: &LOp) -> LRes {
     match (f, op) {
         (RFrame::Simple(s), LOp::Set(..)) if s == b"OK" => LRes::Unit,
@@ -880,6 +931,10 @@ fn c11_cases(tier: Tier) -> Vec<(Vec<Vec<Req>>, Vec<usize>, u64, bool, u8)> {
             }
         }
     }
+    // real contention on the KeyDir shard of k while one client's command needs it (seven commands)
+    for w in 0..7usize {
+        cases.push((vec![vec![]], vec![w], 1u64 << 31, false, 4));
+    }
     // every hook point inside the store (before the writer lock and before each KeyDir shard access):
     // 2 clients x 1 command over the full alphabet, from an empty store and from k = "0"; events per
     // command: enter, 3 x continue (2 for GET), return
@@ -928,6 +983,7 @@ fn c11_run(dir: &Path, progs: &[Vec<Req>], ord: &[usize], mfs: u64, merge: bool,
     match inner {
         2 => c11_case_all(dir, progs, ord, false),
         3 => c11_case_all(dir, progs, ord, true),
+        4 => c11_shard_case(dir, ord.first().cloned().unwrap_or(0)),
         m => c11_case(dir, progs, ord, mfs, merge, m == 1),
     }
 }
@@ -1658,6 +1714,86 @@ pub fn c10_case(dir: &Path, stream: &[u8], ending: Ending, a_first: bool, crowd:
     Ok(o)
 }
 
+/// The hostile client arrives while the server is AT its connection limit: it sits in the backlog,
+/// sends its stream and goes away again (FIN, or RST) before it is ever accepted; a slot is freed
+/// afterwards and the server takes the dead connection off the queue.
+pub fn c10_queued_case(dir: &Path, stream: &[u8], reset: bool) -> Result<String, V> {
+    let srv = Srv::start(dir, &SrvCfg { max_connections: 2, max_file_size: 1 << 31, gated: false }).map_err(mach)?;
+    let r = (|| -> Result<String, V> {
+        let mut model = Kv::new();
+        let ctl_set = Req::Set(b"ctl".to_vec(), b"v1".to_vec());
+        let g = Req::Get(b"ctl".to_vec());
+        let mut b = srv.connect().map_err(|e| mach(format!("connect: {}", e)))?;
+        b.write_all(&ctl_set.encode()).map_err(|e| mach(e.to_string()))?;
+        let want = ctl_set.apply(&mut model);
+        match read_frame(&mut b, T20) {
+            Ok((f, _)) if f == want => {}
+            o => return Err(mach(format!("setup: SET ctl: {:?}", o.map(|x| x.0)))),
+        }
+        let mut f = srv.connect().map_err(|e| mach(format!("connect: {}", e)))?;
+        f.write_all(&g.encode()).map_err(|e| mach(e.to_string()))?;
+        let wantg = g.apply(&mut model);
+        match read_frame(&mut f, T20) {
+            Ok((x, _)) if x == wantg => {}
+            o => return Err(mach(format!("setup: GET ctl on the second connection: {:?}", o.map(|x| x.0)))),
+        }
+        // both slots are taken: the hostile connection waits in the backlog
+        let e0 = srv.epoch();
+        let mut a = srv.connect().map_err(|e| mach(format!("connect: {}", e)))?;
+        let _ = a.write_all(stream);
+        let before = model.clone();
+        let _ = reference_run(stream, &mut model);
+        if reset {
+            use std::os::unix::io::AsRawFd;
+            let lg = libc::linger { l_onoff: 1, l_linger: 0 };
+            unsafe {
+                libc::setsockopt(a.as_raw_fd(), libc::SOL_SOCKET, libc::SO_LINGER, &lg as *const _ as *const libc::c_void, std::mem::size_of::<libc::linger>() as u32);
+            }
+        }
+        drop(a);
+        srv.quiesce(e0);
+        // a slot is freed: the server accepts what is left of the hostile connection
+        let e1 = srv.epoch();
+        drop(f);
+        srv.quiesce(e1);
+        std::thread::sleep(Duration::from_millis(2));
+        srv.quiesce(srv.epoch());
+        if srv.thread_finished() || srv.run_returned.load(Ordering::SeqCst) {
+            return Err(("server-died".into(), format!("the server stopped after it accepted a connection that had been {} while it waited in the backlog", if reset { "reset" } else { "closed" })));
+        }
+        b.write_all(&g.encode()).map_err(|e| ("control-connection-broken".to_string(), e.to_string()))?;
+        match read_frame(&mut b, T20) {
+            Ok((x, _)) if x == wantg => {}
+            o => return Err(("control-connection-wrong-answer".into(), format!("GET ctl on the control connection: {:?}, expected {:?}", o.map(|x| x.0), wantg))),
+        }
+        let mut d = srv.connect().map_err(|e| ("listener-gone".to_string(), format!("fresh connection cannot connect: {}", e)))?;
+        d.write_all(&g.encode()).map_err(|e| mach(e.to_string()))?;
+        match read_frame(&mut d, T20) {
+            Ok((x, _)) if x == wantg => {}
+            o => return Err(("fresh-connection-not-served".into(), format!("GET ctl on a fresh connection: {:?}", o.map(|x| x.0)))),
+        }
+        // the store: the well-formed prefix of the hostile stream was executed (what was received
+        // before the connection went away is still read) or, for a reset, not at all
+        let keys: Vec<Vec<u8>> = vec![b"ctl".to_vec(), b"a".to_vec(), b"b".to_vec(), b"k".to_vec(), b"x".to_vec(), b"a0".to_vec(), b"a1".to_vec(), b"a2".to_vec(), b"SET".to_vec(), vec![], b"\xff\xfe".to_vec()];
+        let contents = srv.store_contents(&keys);
+        let proj = |m: &Kv| {
+            let mut m = m.clone();
+            m.retain(|k, _| keys.contains(k));
+            m
+        };
+        if contents != proj(&model) && !(reset && contents == proj(&before)) {
+            return Err(("store-changed-by-malformed-input".into(), format!("store {:?}, model {:?}", contents.iter().map(|(k, v)| (hex(k), hex(v))).collect::<Vec<_>>(), proj(&model).iter().map(|(k, v)| (hex(k), hex(v))).collect::<Vec<_>>())));
+        }
+        Ok(format!("queued-{}", if reset { "reset" } else { "closed" }))
+    })();
+    let stopped = srv.stop();
+    let o = r?;
+    if !stopped {
+        return Err(("server-does-not-stop".into(), "run() did not return within 6 s after the hostile traffic".into()));
+    }
+    Ok(o)
+}
+
 fn c10_streams(tier: Tier) -> Vec<(Vec<u8>, String)> {
     let mut v: Vec<(Vec<u8>, String)> = vec![];
     let alpha = crate::e4::ALPHA;
@@ -1833,6 +1969,36 @@ pub fn c10(job: &Job, sh: &mut Shard, t0: Instant) {
             }
         }
     }
+    // the hostile client queued behind a full server
+    let mut q = 0usize;
+    let mut queued: Vec<(Vec<u8>, String)> = vec![(vec![], "no bytes at all".into()), (cmd(&[b"GET", b"a"]), "a well-formed GET".into()), (cmd(&[b"SET", b"a", b"x"]), "a well-formed SET".into())];
+    queued.extend(streams.iter().filter(|(s, w)| w != "exhaustive string" && s.len() <= 100_000).cloned());
+    for (s, what) in &queued {
+        for reset in [false, true] {
+            q += 1;
+            if q % job.nshards != job.shard {
+                continue;
+            }
+            if t0.elapsed().as_secs() > job.deadline_s || sh.viol_counts.values().sum::<u64>() >= 6 {
+                sh.capped = true;
+                return;
+            }
+            let shown: Vec<u8> = s.iter().cloned().take(120).collect();
+            let case = json!({"engine": "net", "kind": "c10q", "what": what, "len": s.len(), "bytes": if s.len() <= 4096 { json!(s) } else { json!(null) }, "shown": String::from_utf8_lossy(&shown), "reset": reset});
+            job.progress(&case);
+            sh.evaluations += 1;
+            sh.transitions += 6;
+            sh.states.insert(fnv(format!("q{:?}{}", s, reset).as_bytes()));
+            match c10_queued_case(&dir, s, reset) {
+                Ok(o) => sh.outcome(o),
+                Err((c, msg)) if c == "MACHINERY" => sh.machinery_errors.push(format!("C10 {} ({})", msg, what)),
+                Err((c, msg)) => match c10_queued_case(&dir, s, reset) {
+                    Err((c2, _)) if c2 == c => sh.violate(Violation { class: format!("C10:{}", c), msg: format!("{} | hostile stream: {} {:?} ({} bytes), sent while waiting in the backlog of a full server (max_connections 2), then {}", msg, what, String::from_utf8_lossy(&shown), s.len(), if reset { "reset" } else { "closed" }), case }),
+                    other => sh.machinery_errors.push(format!("C10 violation {} not reproduced ({:?}): {} ({})", c, other.map_err(|e| e.0), msg, what)),
+                },
+            }
+        }
+    }
 }
 
 // =============================================================================================
@@ -1855,6 +2021,13 @@ pub fn replay(prop: &str, case: &Value, dir: &Path) -> Vec<Violation> {
             let ord: Vec<usize> = case["order"].as_array().map(|a| a.iter().map(|x| x.as_u64().unwrap() as usize).collect()).unwrap_or_default();
             let inner = case["inner"].as_u64().map(|x| x as u8).unwrap_or(if case["inner"].as_bool().unwrap_or(false) { 1 } else { 0 });
             push(c11_run(dir, &progs, &ord, case["max_file_size"].as_u64().unwrap_or(1 << 31), case["merge"].as_bool().unwrap_or(false), inner));
+        }
+        "c10q" => {
+            let bytes: Vec<u8> = case["bytes"].as_array().map(|a| a.iter().map(|b| b.as_u64().unwrap() as u8).collect()).unwrap_or_else(|| {
+                let what = case["what"].as_str().unwrap_or("");
+                c10_streams(Tier::Thorough).into_iter().find(|(_, w)| w == what).map(|x| x.0).unwrap_or_default()
+            });
+            push(c10_queued_case(dir, &bytes, case["reset"].as_bool().unwrap_or(false)));
         }
         "c16" => {
             let states: Vec<CState> = case["states"].as_array().map(|a| a.iter().filter_map(|x| x.as_str().and_then(parse_cstate)).collect()).unwrap_or_default();
